@@ -69,3 +69,8 @@ mk(12, POS + ['0 < rho0', 'u0 <> 0', '0 < gamma', 'gamma < 1', '0 < Gamma', 'geo
 mk(18, POS + ['t < tau', '0 < rho0', '0 < Gamma', 'alpha <> 0', 'geometry - 1 + 1 <> 0', '2 * alpha - 2 * beta - (geometry - 1) - 7 <> 0',
               '0 < alpha * tau ^ 2 / Gamma / (2 * alpha - 2 * beta - (geometry - 1) - 7)'],
    heat=('K0', 'alpha', 'beta'), tactic='assert (0 < tau ^ 2 - t ^ 2) by nra; heat_solve 2')
+mk(7, ['0 < r', '0 < t', 't < tau', '0 < tau', '0 < Ri', '0 < R0', '0 < Gamma', 'geometry = 1 \\/ geometry = 2 \\/ geometry = 3',
+       '0 < Rpower (r / sqrt (tau ^ 2 - t ^ 2)) (2 - b / ((geometry - 1 + 3) / (geometry - 1 + 1))) - Rpower (Ri / tau) (2 - b / ((geometry - 1 + 3) / (geometry - 1 + 1)))',
+       '0 < Rpower R0 (2 - b / ((geometry - 1 + 3) / (geometry - 1 + 1))) - Rpower Ri (2 - b / ((geometry - 1 + 3) / (geometry - 1 + 1)))',
+       '2 * ((geometry - 1 + 3) / (geometry - 1 + 1)) - b <> 0'],
+   tactic='assert (0 < tau ^ 2 - t ^ 2) by nra; euler_solve')
